@@ -1,4 +1,4 @@
-From Coq Require Import ZArith Lia List Bool ZifyBool.
+From Coq Require Import ZArith Lia List Bool ZifyBool FinFun.
 From ScV Require Import Base.CInt C04.AllgatherModel.
 Import ListNotations.
 Local Open Scope Z_scope.
@@ -9,12 +9,9 @@ Proof. unfold inb. lia. Qed.
 Lemma inb_false lo n x : inb lo n x = false <-> ~ (lo <= x < lo + n).
 Proof. unfold inb. lia. Qed.
 
-Section Proofs.
-  Variable A : Type.
+Section Matching.
   Variable amax : Z.
   Hypothesis amax_pos : 1 <= amax.
-  Variable b : Z -> A.
-  Notation state := (state A).
 
   (* ---- every receive has exactly one matching send with the same tag, slot range and size ---- *)
   Lemma matching_level g base r d t l n :
@@ -42,14 +39,39 @@ Section Proofs.
   Proof.
     intros Hg Hr Hd. unfold sends_a2a, recvs_a2a, TAG_ALLTOALL. rewrite !in_map_iff. split.
     - intros [j [Hj Hin]]. apply filter_In in Hin. destruct Hin as [Hseq Hne]. apply in_seq in Hseq.
-      injection Hj as ? ? ? ?. subst. exists (Z.to_nat (r - base)). split.
-      + f_equal; lia.
+      injection Hj as E1 E2 E3 E4. exists (Z.to_nat (r - base)). split.
+      + rewrite <- E2, <- E3, <- E4. f_equal; lia.
       + apply filter_In. split; [apply in_seq; lia|]. lia.
     - intros [j [Hj Hin]]. apply filter_In in Hin. destruct Hin as [Hseq Hne]. apply in_seq in Hseq.
-      injection Hj as ? ? ? ?. subst. exists (Z.to_nat (d - base)). split.
-      + f_equal; lia.
+      injection Hj as E1 E2 E3 E4. exists (Z.to_nat (d - base)). split.
+      + rewrite <- E2, <- E3, <- E4. f_equal; lia.
       + apply filter_In. split; [apply in_seq; lia|]. lia.
   Qed.
+
+  (* tags of the exchange step are pairwise distinct per ordered pair of ranks: a rank never posts two
+     receives for the same (source, tag) within one step, so matching is deterministic *)
+  Lemma recvs_level_distinct g base r : NoDup (map (fun m => (peer m, mtag m)) (recvs_level g base r)).
+  Proof.
+    unfold recvs_level. cbv zeta.
+    destruct (r - base <? g / 2); [repeat constructor; simpl; tauto|].
+    destruct ((r - base =? g - 1) && negb (g / 2 =? g - g / 2)); repeat constructor; simpl; tauto.
+  Qed.
+
+  Lemma recvs_a2a_distinct g base r : NoDup (map (fun m => (peer m, mtag m)) (recvs_a2a g base r)).
+  Proof.
+    unfold recvs_a2a. rewrite map_map. simpl.
+    apply FinFun.Injective_map_NoDup.
+    - intros x y H. injection H as H. lia.
+    - apply NoDup_filter. apply seq_NoDup.
+  Qed.
+End Matching.
+
+Section Proofs.
+  Variable A : Type.
+  Variable amax : Z.
+  Hypothesis amax_pos : 1 <= amax.
+  Variable b : Z -> A.
+  Notation state := (state A).
 
   (* ---- content ------------------------------------------------------------ *)
   Definition full (g base : Z) (st : state) : Prop :=
@@ -68,15 +90,15 @@ Section Proofs.
     - intros r i Hr Hi. unfold deliver. rewrite (proj2 (inb_true base g r) Hr).
       unfold recvs_level. cbv zeta. fold g2.
       destruct (r - base <? g2) eqn:Er.
-      + simpl. destruct (inb (base + g2) (g - g2) i) eqn:Ei.
-        * apply inb_true in Ei. apply Hhi; lia.
+      + cbn [find lo cnt]. destruct (inb (base + g2) (g - g2) i) eqn:Ei.
+        * apply inb_true in Ei. cbn [peer]. apply Hhi; lia.
         * apply inb_false in Ei. apply Hlo; lia.
-      + destruct ((r - base =? g - 1) && negb (g2 =? g - g2)) eqn:E2; simpl.
+      + destruct ((r - base =? g - 1) && negb (g2 =? g - g2)) eqn:E2; cbn [find lo cnt].
         * destruct (inb base g2 i) eqn:Ei.
-          -- apply inb_true in Ei. apply Hlo; lia.
+          -- apply inb_true in Ei. cbn [peer]. apply Hlo; lia.
           -- apply inb_false in Ei. apply Hhi; lia.
         * destruct (inb base g2 i) eqn:Ei.
-          -- apply inb_true in Ei. apply Hlo; lia.
+          -- apply inb_true in Ei. cbn [peer]. apply Hlo; lia.
           -- apply inb_false in Ei. apply Hhi; lia.
     - intros r i Hn. unfold deliver. destruct (inb base g r) eqn:Er; [|reflexivity].
       apply inb_true in Er. unfold recvs_level. cbv zeta. fold g2.
@@ -86,37 +108,72 @@ Section Proofs.
         (destruct (inb base g2 i) eqn:Ei; [|reflexivity]); apply inb_true in Ei; lia.
   Qed.
 
-  Lemma find_a2a g base r i : 0 <= g -> base <= r < base + g -> base <= i < base + g -> i <> r ->
-    find (fun m => inb (lo m) (cnt m) i) (recvs_a2a g base r) = Some (mkmsg i TAG_ALLTOALL i 1).
+  Lemma find_a2a_gen base r i s :
+    match find (fun m => inb (lo m) (cnt m) i)
+               (map (fun j => mkmsg (base + Z.of_nat j) TAG_ALLTOALL (base + Z.of_nat j) 1)
+                    (filter (fun j => negb (base + Z.of_nat j =? r)) s)) with
+    | Some m => peer m = i /\ i <> r /\ In (Z.to_nat (i - base)) s /\ base <= i
+    | None => forall j, In j s -> base + Z.of_nat j = r \/ base + Z.of_nat j <> i
+    end.
   Proof.
-    intros Hg Hr Hi Hne. unfold recvs_a2a.
-    assert (Hgen : forall s n, (forall j, In j s -> (j < Z.to_nat g)%nat) -> NoDup s -> In (Z.to_nat (i - base)) s ->
-              find (fun m => inb (lo m) (cnt m) i)
-                (map (fun j => mkmsg (base + Z.of_nat j) TAG_ALLTOALL (base + Z.of_nat j) 1)
-                     (filter (fun j => negb (base + Z.of_nat j =? r)) s)) = Some (mkmsg i TAG_ALLTOALL i 1) \/ n = 0%nat).
-    { induction s as [|j s IH]; intros n Hb Hnd Hin; [destruct Hin|].
-      simpl. destruct (negb (base + Z.of_nat j =? r)) eqn:Ej.
-      - simpl. destruct (inb (base + Z.of_nat j) 1 i) eqn:Ein.
-        + apply inb_true in Ein. left. f_equal. f_equal; lia.
-        + apply inb_false in Ein. destruct Hin as [Hin|Hin]; [lia|].
-          inversion Hnd; subst. apply (IH n); auto. intros; apply Hb; right; assumption.
-      - destruct Hin as [Hin|Hin]; [lia|]. inversion Hnd; subst. apply (IH n); auto. intros; apply Hb; right; assumption. }
-    destruct (Hgen (seq 0 (Z.to_nat g)) 1%nat) as [H|H]; try assumption; try lia.
-    - intros j Hj. apply in_seq in Hj. lia.
-    - apply seq_NoDup.
-    - apply in_seq. lia.
+    induction s as [|j s IH]; simpl; [intros j []|].
+    destruct (negb (base + Z.of_nat j =? r)) eqn:Ej; simpl.
+    - destruct (inb (base + Z.of_nat j) 1 i) eqn:Ein.
+      + apply inb_true in Ein. simpl. repeat split; try lia.
+      + apply inb_false in Ein. destruct (find _ _) as [m|].
+        * destruct IH as [H1 [H2 [H3 H4]]]. repeat split; auto.
+        * intros k [<-|Hk]; [right; lia|apply IH; exact Hk].
+    - destruct (find _ _) as [m|].
+      + destruct IH as [H1 [H2 [H3 H4]]]. repeat split; auto.
+      + intros k [<-|Hk]; [left; lia|apply IH; exact Hk].
   Qed.
 
-  Lemma find_a2a_none g base r i : ~ (base <= i < base + g) \/ i = r ->
-    find (fun m => inb (lo m) (cnt m) i) (recvs_a2a g base r) = None.
+  Lemma deliver_a2a g base st :
+    0 <= g -> (forall r, base <= r < base + g -> st r r = Some (b r)) ->
+    full g base (deliver A (recvs_a2a g base) g base st) /\ frame g base st (deliver A (recvs_a2a g base) g base st).
   Proof.
-    intros Hi. unfold recvs_a2a. induction (seq 0 (Z.to_nat g)) as [|j s IH] eqn:Es in |- *.
-    - reflexivity.
-    - simpl. destruct (negb (base + Z.of_nat j =? r)) eqn:Ej; [|exact IH].
-      simpl. destruct (inb (base + Z.of_nat j) 1 i) eqn:Ein; [|exact IH].
-      apply inb_true in Ein.
-      (* slot j is inside the group because j comes from seq 0 g -- but IH lost that; redo with explicit bound *)
-      exfalso. destruct Hi as [Hi|Hi]; [|lia].
-      (* need j < g *) admit.
-  Abort.
+    intros Hg Hown. split.
+    - intros r i Hr Hi. unfold deliver. rewrite (proj2 (inb_true base g r) Hr).
+      unfold recvs_a2a. pose proof (find_a2a_gen base r i (seq 0 (Z.to_nat g))) as H.
+      destruct (find _ _) as [m|].
+      + destruct H as [-> _]. apply Hown. exact Hi.
+      + destruct (Z.eq_dec i r) as [->|Hne]; [apply Hown; exact Hr|].
+        exfalso. destruct (H (Z.to_nat (i - base))) as [E|E]; [apply in_seq; lia|lia|lia].
+    - intros r i Hn. unfold deliver. destruct (inb base g r) eqn:Er; [|reflexivity].
+      apply inb_true in Er. unfold recvs_a2a. pose proof (find_a2a_gen base r i (seq 0 (Z.to_nat g))) as H.
+      destruct (find _ _) as [m|]; [|reflexivity].
+      destruct H as [_ [_ [Hin Hb]]]. apply in_seq in Hin. exfalso. apply Hn. lia.
+  Qed.
+
+  (* ---- the recursion: every member ends with all blocks of its group in order, nothing else changes ---- *)
+  Theorem ag_correct : forall fuel g base st,
+    0 < g -> (Z.to_nat g <= fuel)%nat ->
+    (forall r, base <= r < base + g -> st r r = Some (b r)) ->
+    full g base (ag A amax fuel g base st) /\ frame g base st (ag A amax fuel g base st).
+  Proof.
+    induction fuel as [|f IH]; intros g base st Hg Hf Hown; [lia|].
+    cbn [ag]. destruct (amax <? g) eqn:Ea.
+    - cbv zeta. set (g2 := g / 2). assert (Hg2 : 2 * g2 <= g <= 2 * g2 + 1 /\ 1 <= g2) by (unfold g2; lia).
+      destruct (IH g2 base st) as [F1 R1]; [lia|lia|intros r Hr; apply Hown; lia|].
+      set (st1 := ag A amax f g2 base st) in *.
+      assert (Hown1 : forall r, base + g2 <= r < base + g2 + (g - g2) -> st1 r r = Some (b r)).
+      { intros r Hr. rewrite R1 by lia. apply Hown. lia. }
+      destruct (IH (g - g2) (base + g2) st1) as [F2 R2]; [lia|lia|exact Hown1|].
+      set (st2 := ag A amax f (g - g2) (base + g2) st1) in *.
+      assert (F1' : full g2 base st2).
+      { intros r i Hr Hi. rewrite R2 by lia. apply F1; assumption. }
+      destruct (deliver_level g base st2) as [F3 R3]; [lia|exact F1'|exact F2|].
+      split; [exact F3|].
+      intros r i Hn. rewrite R3 by exact Hn. rewrite R2 by lia. apply R1. lia.
+    - apply deliver_a2a; [lia|exact Hown].
+  Qed.
+
+  Corollary allgather_correct P : 0 < P ->
+    forall r i, 0 <= r < P -> 0 <= i < P -> allgather A amax P b r i = Some (b i).
+  Proof.
+    intros HP r i Hr Hi. unfold allgather.
+    destruct (ag_correct (S (Z.to_nat P)) P 0 (init A b)) as [F _]; [lia|lia| |apply F; lia].
+    intros q Hq. unfold init. rewrite Z.eqb_refl. reflexivity.
+  Qed.
+
 End Proofs.
